@@ -239,6 +239,14 @@ async def eval_real(expr, asg, fc=None, hint_keys=()):
     from ahbicht.expressions.requirement_constraint_expression_evaluation import requirement_constraint_evaluation
     ahb.set_cer_values(rc={conc(k): v for k, v in asg.items()}, fc={conc(k): v for k, v in (fc if fc is not None else {k: True for k in FC_KEYS_POOL}).items()},
                        hints={conc(k): ahb.hint_text(k) for k in HINT_KEYS_POOL}, inplace=True)
+    if isinstance(expr, str) and hash(expr) % 8 == 0:
+        # fault history (one expression in eight): refused near misses of the same string were handled before
+        from common import near_misses
+        for nm in near_misses(expr):
+            try:
+                await requirement_constraint_evaluation(nm)
+            except BaseException:  # noqa: BLE001 - not judged here
+                pass
     try:
         r = await requirement_constraint_evaluation(expr)
     except InvalidExpressionError:
@@ -452,6 +460,15 @@ async def check_validity_entry_points(expr, tree, asg, err, acc, case, rng):
                   f"structural validity says {'invalid' if err else 'valid'}", dict(case, ahb=ahb_expr))
     if all(v == "F" for v in asg.values()):      # once per tree
         for ahb_expr in variants[:2]:
+            if rng.random() < 0.3:
+                # fault history: refused near misses of the same string were asked before (their own verdicts are C02's business)
+                from common import near_misses
+                for nm in near_misses(ahb_expr):
+                    try:
+                        await is_valid_expression(nm, ahb.set_cer)
+                    except BaseException:  # pylint:disable=broad-except  # noqa: BLE001 - not judged here
+                        pass
+                acc.count("validity_verdicts_after_refused_near_misses")
             try:
                 verdict = await is_valid_expression(ahb_expr, ahb.set_cer)
             except BaseException as e:  # pylint:disable=broad-except
